@@ -26,7 +26,7 @@
 (* reads, a mined block only what later syncs read, so every interleaving  *)
 (* of them with the ticks and deliveries of the slot has a representative  *)
 (* here; a restart is allowed at any time.  The next slot begins only when *)
-(* at most Carry packets are still in flight.                              *)
+(* nothing is in flight.                                                   *)
 (*                                                                         *)
 (* Network.  Policies = {"any"}: every delivery order, ticks at any time    *)
 (* (affordable for one slot: 3 ticking keypers give ~5*10^5 states per     *)
@@ -55,7 +55,10 @@ CONSTANTS
     FirstSlot, MaxSlot,   \* slots FirstSlot..MaxSlot are ticked
     TxGas,                \* what a mined block may carry: subset of {"none", "Low", "AtLimit", "Above"}
     MaxTx,                \* bound on the transactions of one branch (queue length)
-    MaxLag, MaxLoss, MaxRestarts, AllowReorg, Carry,
+    MaxLag, MaxLoss, MaxRestarts, AllowReorg,
+    Laggards,             \* keypers that may fall behind the head; the others sync every block at once
+    EarlyBlocks,          \* may the block of slot s be mined (and synced) before the keypers tick slot s?
+    LateTicks,            \* policy mode: may a keyper tick after deliveries of the slot (at quiescence)?
     Tickers,              \* keypers whose slot ticker runs (subset of KeyperIdx)
     Policies,             \* {"any"} or a set of delivery policies
     Emit
@@ -76,6 +79,8 @@ Init ==
     /\ hist = <<>>
 
 HeadNum == w.ch.blk[w.ch.head].num
+AtHead(k) == SyncStep(w.ch, w.kp[k + 1].sy) = w.kp[k + 1].sy
+EagerDone == \A k \in KeyperIdx \ Laggards : AtHead(k)
 SyncedNum(k) == w.kp[k + 1].sy.synced.num
 
 (* the step a, with the packet pk taken out of the network (NoPk: none) *)
@@ -108,14 +113,14 @@ Picked(pk) == pol = "any" \/ \A q \in BagToSet(net) : ~LexLess(PolKey(q), PolKey
 PickOK(pk) == pol = "any" \/ pk = CHOOSE q \in BagToSet(net) : Picked(q)
 
 Mine(g) ==
-    /\ ph = "env" /\ HeadNum < w.slot
+    /\ ph = "env" /\ HeadNum < (IF EarlyBlocks THEN w.slot ELSE w.slot - 1) /\ EagerDone
     /\ \A k \in KeyperIdx : HeadNum + 1 - SyncedNum(k) <= MaxLag
     /\ g # "none" => TxCount(w.ch, w.ch.head) < MaxTx
     /\ Do(Act("mine", 0, g, NoM), NoPk)
     /\ UNCHANGED <<ph, cnt, pol, burst>>
 
 Reorg(g) ==
-    /\ ph = "env" /\ AllowReorg /\ ~cnt.reorg /\ w.ch.head # 1
+    /\ ph = "env" /\ AllowReorg /\ ~cnt.reorg /\ w.ch.head # 1 /\ EagerDone
     /\ g # "none" => TxCount(w.ch, w.ch.blk[w.ch.head].par) < MaxTx
     /\ Do(Act("reorg", 0, g, NoM), NoPk)
     /\ cnt' = [cnt EXCEPT !.reorg = TRUE]
@@ -123,7 +128,7 @@ Reorg(g) ==
 
 Sync(k) ==
     /\ ph = "env"
-    /\ SyncStep(w.ch, w.kp[k + 1].sy) # w.kp[k + 1].sy
+    /\ ~AtHead(k)
     /\ Do(Act("sync", k, "none", NoM), NoPk)
     /\ UNCHANGED <<ph, cnt, pol, burst>>
 
@@ -134,7 +139,7 @@ RestartK(k) ==
     /\ UNCHANGED <<ph, pol, burst>>
 
 NextSlot ==
-    /\ w.slot < MaxSlot /\ BagCardinality(net) <= Carry
+    /\ w.slot < MaxSlot /\ net = EmptyBag
     /\ Do(Act("slot", 0, "none", NoM), NoPk)
     /\ ph' = "env" /\ pol' \in Policies /\ burst' = -1
     /\ UNCHANGED cnt
@@ -142,7 +147,8 @@ NextSlot ==
 Tick(k) ==
     /\ k \in Tickers
     /\ w.kp[k + 1].s.fresh \/ w.kp[k + 1].s.latest < w.slot
-    /\ pol = "any" \/ net = EmptyBag \/ (burst >= 0 /\ k > burst)
+    /\ EagerDone
+    /\ pol = "any" \/ ph = "env" \/ (burst >= 0 /\ k > burst) \/ (LateTicks /\ net = EmptyBag)
     /\ Do(Act("tick", k, "none", NoM), NoPk)
     /\ ph' = "run" /\ burst' = k
     /\ UNCHANGED <<cnt, pol>>
@@ -179,7 +185,7 @@ QueueOK == \A k \in KSeq : Contiguous(w.kp[k].sy.stored) /\ w.kp[k].sy.synced.ha
 SyncOK == \A k \in KSeq : CS!C15_Exact(w.ch.blk, w.ch.head, 0, w.kp[k].sy)
 
 Final == w.slot = MaxSlot /\ net = EmptyBag /\ ph = "run"
-EmitInv == ~(Emit /\ Final) \/ PrintT(<<"B", ToJson(hist)>>)
+EmitInv == ~(Emit /\ Final) \/ PrintT(<<"B", ToJson([h |-> hist, tags |-> SetToSeq(gw.atags)])>>)
 
-View == <<w, net, gw, ph, cnt, pol, burst>>
+View == <<w, net, [gw EXCEPT !.atags = {}], ph, cnt, pol, burst>>
 =============================================================================
